@@ -1542,3 +1542,51 @@ def canonical_while(tree: ast.AST) -> int:
     if k:
         ast.fix_missing_locations(tree)
     return k
+
+
+# (xxiv) `L.acquire()` directly followed by `try: B finally: L.release()` (no handlers, nothing else in the finally) is read
+# as `with L: B`; `return a if c else b` is read as `if c: return a` / `else: return b`.
+
+
+def canonical_regions(tree: ast.AST) -> int:
+    k = [0]
+
+    def plain_call(st, meth):
+        if isinstance(st, ast.Expr) and isinstance(st.value, ast.Call) and isinstance(st.value.func, ast.Attribute) and st.value.func.attr == meth and not st.value.args and not st.value.keywords:
+            return st.value.func.value
+        return None
+
+    def fix(body):
+        out = []
+        i = 0
+        while i < len(body):
+            st = body[i]
+            nx = body[i + 1] if i + 1 < len(body) else None
+            rcv = plain_call(st, 'acquire')
+            if rcv is not None and isinstance(rcv, (ast.Name, ast.Attribute)) and isinstance(nx, ast.Try) and not nx.handlers and not nx.orelse and len(nx.finalbody) == 1:
+                rel = plain_call(nx.finalbody[0], 'release')
+                if rel is not None and ast.dump(rel) == ast.dump(rcv):
+                    out.append(ast.copy_location(ast.With(items=[ast.withitem(context_expr=rcv, optional_vars=None)], body=nx.body), st))
+                    k[0] += 1
+                    i += 2
+                    continue
+            if isinstance(st, ast.Return) and isinstance(st.value, ast.IfExp):
+                out.append(ast.copy_location(ast.If(test=st.value.test, body=[ast.copy_location(ast.Return(value=st.value.body), st)], orelse=[ast.copy_location(ast.Return(value=st.value.orelse), st)]), st))
+                k[0] += 1
+                i += 1
+                continue
+            out.append(st)
+            i += 1
+        return out
+
+    for n in ast.walk(tree):
+        for fld in ('body', 'orelse', 'finalbody'):
+            b = getattr(n, fld, None)
+            if isinstance(b, list) and b and isinstance(b[0], ast.stmt):
+                setattr(n, fld, fix(b))
+        if isinstance(n, ast.Try):
+            for h in n.handlers:
+                h.body = fix(h.body)
+    if k[0]:
+        ast.fix_missing_locations(tree)
+    return k[0]
